@@ -31,8 +31,10 @@ class EnumV:
 
 
 class VecIter:
-    def __init__(self, vec):
+    def __init__(self, vec, filtered=False, empty=False):
         self.vec = vec
+        self.filtered = filtered   # some elements may have been dropped: the position in the iterator is not the element's index
+        self.empty = empty
 
 
 class ElemSel:
@@ -78,6 +80,28 @@ class DriverInterp(Interp):
             return EnumV(a0)
         if isinstance(a0, (EnumV, IterMutV)) and name == "for_each" and len(args) == 2:
             return self.loop_over(a0, unref(args[1]), None, e)
+        if isinstance(a0, VecIter) and name in ("filter_map", "filter") and len(args) == 2:
+            r = unref(self.call_closure(unref(args[1]), [Ref([a0.vec.elem], 0) if name == "filter" else a0.vec.elem], e))
+            if name == "filter":
+                raise Unsupported("filter on an element-uniform vector")
+            if not isinstance(r, Opt):
+                raise Unsupported("filter_map closure result")
+            if not r.some:
+                return VecIter(a0.vec, filtered=True, empty=True)
+            return VecIter(VecV(r.v, a0.vec.dim, a0.vec.idx), filtered=True)
+        if isinstance(a0, VecIter) and name == "enumerate":
+            return EnumV(a0)
+        if isinstance(a0, Mat) and name == "set_row" and len(args) == 3:
+            i, row = unref(args[1]), unref(args[2])
+            if not (isinstance(i, Sc) and isinstance(row, Mat) and row.shape[0] == "1" and row.shape[1] == a0.shape[1]):
+                raise Unsupported("set_row arguments")
+            d = delta("$r", idx_name(i))
+            a0.p = d * row.p + (ONE - d) * a0.p
+            return UNIT
+        if isinstance(a0, EnumV) and isinstance(a0.it, VecIter) and name == "map" and len(args) == 2:
+            vec = a0.it.vec
+            r = self.call_closure(unref(args[1]), [Tup([Sc(Poly.var(vec.idx)), deep(vec.elem)])], e)
+            return VecIter(VecV(r, vec.dim, vec.idx))
         if isinstance(a0, VecIter):
             if name == "map":
                 return VecIter(VecV(self.call_closure(unref(args[1]), [deep(a0.vec.elem)], e), a0.vec.dim, a0.vec.idx))
@@ -93,6 +117,15 @@ class DriverInterp(Interp):
         if name == "into_iter" and isinstance(a0, (EnumV, IterMutV, VecIter)):
             return a0
         return Interp.leaf_call(self, name, path, ipath, c, args, e)
+
+    def compare(self, op, a, b):
+        # equality of two index symbols (the element's own index, an index parameter): one canonical decision per unordered pair
+        if op in ("==", "!=") and isinstance(a, Sc) and isinstance(b, Sc) and is_index(a.v) and is_index(b.v):
+            if a.v.key() > b.v.key():
+                a, b = b, a
+        elif isinstance(a, Sc) and isinstance(b, Sc) and (is_index(a.v) or is_index(b.v)) and op not in ("==", "!="):
+            raise Unsupported("ordering comparison on an element index")
+        return Interp.compare(self, op, a, b)
 
     def ev_for(self, e, env):
         # for (i, xi) in x.iter_mut().enumerate() { body }  on an element-uniform vector
@@ -121,6 +154,8 @@ class DriverInterp(Interp):
             vec = itv.vec
             cell = [vec.elem]
             item = Ref(cell, 0)
+        elif isinstance(itv, VecIter) or (isinstance(itv, EnumV) and isinstance(itv.it, VecIter)):
+            return self.loop_immutable(itv, closure, forparts, e)
         else:
             self.unsupported("for loop over %r" % (itv,), e)
         original = deep(vec.elem)
@@ -158,6 +193,38 @@ class DriverInterp(Interp):
         vec.elem = cell[0]
         return UNIT
 
+    def loop_immutable(self, itv, closure, forparts, e):
+        """for (i, el) in v.iter()[.filter_map(..)].enumerate() { M.set_row(i, ..) }: one evaluation for the symbolic element; rows
+        written at the element's own index over the whole vector generalise to  M[$r] = row($r); a position that is not the
+        element's index (enumerate after a filter) stays an opaque symbol"""
+        vit = itv.it if isinstance(itv, EnumV) else itv
+        vec = vit.vec
+        if vit.empty:
+            return UNIT
+        pos = Sc(Poly.var(vec.idx)) if not vit.filtered else Sc(apply_fn("position_after_filter", Poly.var(vec.idx)))
+        item = Tup([pos, vec.elem]) if isinstance(itv, EnumV) else vec.elem
+        if forparts is not None:
+            pat, body, env = forparts
+            mats = [unref(c[0]) for c in env.values() if isinstance(unref(c[0]), Mat)]
+            if not self.bind(pat, item, env):
+                self.unsupported("for pattern", e)
+            self.ev(body, env)
+        else:
+            mats = [unref(c[0]) for c in getattr(closure, "env", {}).values() if isinstance(unref(c[0]), Mat)]
+            self.call_closure(closure, [item], e)
+        for m in mats:
+            if m.p is None:
+                continue
+
+            def f(a, vec=vec):
+                if a[0] == "v" and a[1] == "δ" and a[2] == ("$r", vec.idx):
+                    return ONE
+                return None
+            q = m.p.subst(f)
+            if q.key() != m.p.key():
+                m.p = q.rename_idx({vec.idx: "$r"})
+        return UNIT
+
     def ev_index(self, e, env):
         base = unref(self.ev(e["a"], env))
         if isinstance(base, VecV):
@@ -176,6 +243,14 @@ class DriverInterp(Interp):
             if isinstance(base, Mat):
                 return (MatIndex(base, idx_name(i)), 0)
         return Interp.place(self, e, env)
+
+
+def is_index(p):
+    if len(p.t) != 1:
+        return False
+    (m, c), = p.t.items()
+    return c == 1 and len(m) == 1 and m[0][1] == (1, 0) and m[0][0][0] == "v" and not m[0][0][2] and \
+        (m[0][0][1].startswith("$") or m[0][0][1] in ("i", "j", "k"))
 
 
 class NonUniformLoop(Exception):
@@ -362,8 +437,10 @@ def check_outputs(chk, key, F, body, val, want):
                body_loc(F, body), found="%s %s" % (g.show(), gs or ""), required="%s %s" % (w.show(), shape or ""))
 
 
-def run_driver(F, body, args, interp_cls=DriverInterp):
-    it = interp_cls(F, DOMK, extern=NALGEBRA)
+def run_driver(F, body, args, interp_cls=DriverInterp, ctx=None, before=None):
+    it = interp_cls(F, DOMK, extern=NALGEBRA, ctx=ctx)
+    if before:
+        before(it)
     it.loop_sites = []
     it.elementwise_loops = True
     return it.call_body(body, args), it
@@ -419,22 +496,47 @@ def vec3(chk, F, fns):
     ty = "HyperHyperDual"
     zeros = ("eps1eps2", "eps1eps3", "eps2eps3", "eps1eps2eps3")
     outs = ["re", "eps1", "eps2", "eps3", "eps1eps2", "eps1eps3", "eps2eps3", "eps1eps2eps3"]
+    params = ("i", "j", "k")
     for variant in ("try_third_partial_derivative_vec", "third_partial_derivative_vec"):
         body = get_fn(chk, fns, variant)
         if body is None:
             continue
         chk.count("drivers analysed")
-        key = "driver|%s" % variant
-        seen = []
+        key0 = "driver|%s" % variant
         res = Spec(ty).operand("res")
+        runs = []
 
-        def g(it, args, seen=seen, res=res, variant=variant):
-            seen.append([deep_vec(unref(a)) for a in args])
-            return Res(True, res) if variant.startswith("try_") else res
-        try:
+        def thunk(ctx):
+            seen = []
+
+            def g(it, args):
+                seen.append([deep_vec(unref(a)) for a in args])
+                return Res(True, res) if variant.startswith("try_") else res
+            coincide = {}
+
+            def before(it):
+                # whether element k is the 1st / 2nd / 3rd chosen variable is fixed first: all 8 coincidence cases are explored
+                for p_ in params:
+                    coincide[p_] = it.compare("==", Sc(V("$k")), Sc(V(p_))).b
             x = VecV(Sc(V("x", "$k")), "n", "$k")
-            args = [HostFn(g), x, Sc(V("i")), Sc(V("j")), Sc(V("k"))]
-            val, it = run_driver(F, body, args)
+            val, it = run_driver(F, body, [HostFn(g), x, Sc(V("i")), Sc(V("j")), Sc(V("k"))], ctx=ctx, before=before)
+            runs.append((coincide, seen, val))
+            return val
+        try:
+            explore(thunk, max_paths=64)
+        except Unsupported as ex:
+            chk.undecide(key0, "unsupported: %s" % ex, body_loc(F, body))
+            continue
+        for coincide, seen, val in runs:
+            tag = "".join("=" if coincide[p_] else "x" for p_ in params)
+            key = key0 if tag == "xxx" else "%s|k%s" % (key0, tag)
+
+            def fix(p, coincide=coincide):
+                def f(a):
+                    if a[0] == "v" and a[1] == "δ" and a[2][0] == "$k" and a[2][1] in coincide:
+                        return Poly.const(1 if coincide[a[2][1]] else 0)
+                    return None
+                return p.subst(f)
             val = unref(val)
             if variant.startswith("try_"):
                 val = val.v if isinstance(val, Res) and val.ok else val
@@ -442,14 +544,32 @@ def vec3(chk, F, fns):
                 chk.ob(key + "|calls", False, "the closure is called once with the seeded slice", body_loc(F, body), found=repr(seen)[:200])
                 continue
             el = unref(seen[0][0].elem)
-            want = {"re": V("x", "$k"), "eps1": delta("$k", "i"), "eps2": delta("$k", "j"), "eps3": delta("$k", "k")}
+            if isinstance(el, Rec):
+                el = Rec(el.adt, {f_: (Sc(fix(unref(x_).v)) if isinstance(unref(x_), Sc) else x_) for f_, x_ in el.f.items()})
+            want = {"re": V("x", "$k"), "eps1": fix(delta("$k", "i")), "eps2": fix(delta("$k", "j")), "eps3": fix(delta("$k", "k"))}
             want.update({z: Poly() for z in zeros})
             check_seed_scalar(chk, key + "|seed", F, body, ty, el, want)
-            check_outputs(chk, key, F, body, val, [(value_part_poly(res, f), None) for f in outs])
-            if variant.startswith("try_"):
-                error_passthrough(chk, key, F, body, [VecV(Sc(V("x", "$k")), "n", "$k"), Sc(V("i")), Sc(V("j")), Sc(V("k"))])
-        except Unsupported as ex:
-            chk.undecide(key, "unsupported: %s" % ex, body_loc(F, body))
+            if tag == "xxx":
+                check_outputs(chk, key, F, body, val, [(value_part_poly(res, f), None) for f in outs])
+        if variant.startswith("try_"):
+            try:
+                error_passthrough_paths(chk, key0, F, body, lambda: [VecV(Sc(V("x", "$k")), "n", "$k"), Sc(V("i")), Sc(V("j")), Sc(V("k"))])
+            except Unsupported as ex:
+                chk.undecide(key0 + "|error", "unsupported: %s" % ex, body_loc(F, body))
+
+
+def error_passthrough_paths(chk, key, F, body, mk_args):
+    err = Sc(V("err"))
+    vals = []
+
+    def thunk(ctx):
+        val, it = run_driver(F, body, [HostFn(lambda it, a: Res(False, err))] + mk_args(), ctx=ctx)
+        vals.append(unref(val))
+        return val
+    explore(thunk, max_paths=64)
+    ok = all(isinstance(v, Res) and not v.ok and v.v is err for v in vals)
+    chk.ob(key + "|error", ok, "the closure's error is returned unchanged", body_loc(F, body), found=repr(vals[:2])[:120], required="Err(err)",
+           nontrivial=False)
 
 
 def deep_vec(v):
@@ -477,18 +597,32 @@ def gradient_like(chk, F, fns):
             if body is None:
                 continue
             chk.count("drivers analysed")
-            key = "driver|%s" % variant
             ty = cs["ty"]
+            # every presence pattern of the closure's result: an absent derivative part is a zero part in the returned tuple
+            pats = presence_patterns(ty) if not cs.get("vec_out") else [{"eps": True}, {"eps": False}]
+            for pat in reversed(pats):
+                full = all(pat.values())
+                key = "driver|%s" % variant + ("" if full else "|result=%s" % pres_tag(pat))
+                gradient_case(chk, F, body, variant, cs, ty, key, pat, full)
+
+
+def zero_absent(p, pat):
+    def f(a):
+        if a[0] == "v" and a[1].startswith("res.") and not pat.get(a[1][4:], True):
+            return Poly()
+        return None
+    return p.subst(f)
+
+
+def gradient_case(chk, F, body, variant, cs, ty, key, pat, full):
             seen = []
             if cs.get("vec_out"):
                 # vector-valued closure: element m of the output is a DualVec whose parts are indexed by $m
-                r0 = Spec(ty).operand("res")
-                el = Rec(ty, {"re": Sc(V("res.re", "$m")),
-                              "eps": Rec("Derivative", {"0": Opt(True, Mat(V("res.eps", "$m", "$r"), (cs["ins"][0][1], "1"))), "1": PHANTOM}),
-                              "f": PHANTOM})
+                eps = Opt(True, Mat(V("res.eps", "$m", "$r"), (cs["ins"][0][1], "1"))) if pat["eps"] else Opt(False)
+                el = Rec(ty, {"re": Sc(V("res.re", "$m")), "eps": Rec("Derivative", {"0": eps, "1": PHANTOM}), "f": PHANTOM})
                 res = VecV(el, cs["vec_out"], "$m")
             else:
-                res = Spec(ty).operand("res")
+                res = Spec(ty, absent_set("res", pat)).operand("res", pat)
                 # rename the generic dimension names of the symbolic result to the driver's
                 fix_shapes(res, ty, cs)
 
@@ -503,12 +637,14 @@ def gradient_like(chk, F, fns):
                 if variant.startswith("try_"):
                     if not (isinstance(val, Res) and val.ok):
                         chk.ob(key + "|ok", False, "Ok from the closure gives Ok", body_loc(F, body), found=repr(val)[:200])
-                        continue
+                        return
                     val = val.v
                 if len(seen) != 1 or len(seen[0]) != len(cs["ins"]):
                     chk.ob(key + "|calls", False, "the closure is called exactly once", body_loc(F, body), found="%d calls" % len(seen))
-                    continue
+                    return
                 for i, ((nm, dim), (fld, shape, sym), absent) in enumerate(zip(cs["ins"], cs["seed"], cs["absent"])):
+                    if not full:
+                        break   # the seeding does not depend on the closure's result: checked once
                     v = seen[0][i]
                     ks = "%s|seed%d" % (key, i)
                     if not isinstance(v, VecV) or not isinstance(unref(v.elem), Rec) or unref(v.elem).adt != ty:
@@ -535,8 +671,8 @@ def gradient_like(chk, F, fns):
                         oo = unref(dd.f["0"])
                         chk.ob(ks + "|" + ab, not oo.some, "other parts of the seeded inputs are absent (zero)", body_loc(F, body),
                                found=repr(oo)[:80], nontrivial=False)
-                check_outputs(chk, key, F, body, val, cs["outs"](res))
-                if variant.startswith("try_"):
+                check_outputs(chk, key, F, body, val, [(zero_absent(w, pat), shp) for (w, shp) in cs["outs"](res)])
+                if variant.startswith("try_") and full:
                     error_passthrough(chk, key, F, body, mk_args())
             except NonUniformLoop as ex:
                 chk.ob(key + "|uniform", False, "every element of the input is seeded by the same rule applied to its own index "
